@@ -244,6 +244,27 @@ fn check_unsized(seed: u64, rounds: u64, out: &mut MsOut) {
     }
 }
 
+/// A lock that another thread holds for a moment: the estimate must still add up the parts (it may wait for the lock).
+fn check_locked(rounds: u64, out: &mut MsOut) {
+    use std::sync::{mpsc, Arc};
+    for i in 0..rounds {
+        let cap = 64 + (i as usize % 7) * 16;
+        let m = Arc::new(Mutex::new(String::with_capacity(cap)));
+        let rw = Arc::new(RwLock::new(vec![0u64; 4 + i as usize % 5]));
+        let (tx, rx) = mpsc::channel();
+        let (m2, rw2) = (m.clone(), rw.clone());
+        let holder = std::thread::spawn(move || { let g1 = m2.lock().unwrap(); let g2 = rw2.write().unwrap(); tx.send(()).unwrap(); std::thread::sleep(std::time::Duration::from_millis(25)); drop(g2); drop(g1); });
+        rx.recv().unwrap();
+        let (hm, hrw) = (m.heap_size() as u128, rw.heap_size() as u128);
+        holder.join().unwrap();
+        let (wm, wrw) = (m.spec_heap(), rw.spec_heap());
+        out.stats.eval("C08", mix(&[980, i % 7])); out.stats.eval("C08", mix(&[981, i % 5]));
+        out.stats.count("c08_measured_while_locked_elsewhere");
+        if hm != wm { viol(out, "C08", "law:Mutex-locked-elsewhere", format!("Mutex<String> measured while another thread held the lock: heap_size() = {}, its content holds {}", hm, wm)); }
+        if hrw != wrw { viol(out, "C08", "law:RwLock-locked-elsewhere", format!("RwLock<Vec<u64>> measured while another thread held the write lock: heap_size() = {}, its content holds {}", hrw, wrw)); }
+    }
+}
+
 // ------------------------------------------------------------------------------ the type matrix
 
 type T3 = (String, Vec<u8>, Box<str>);
@@ -284,6 +305,7 @@ pub fn run_memsize(seed: u64, rounds: u64, shard: Option<(u64, u64)>) -> MsOut {
     let rounds3 = (rounds / 3).max(20);
     cross!(run_types, [seed, rounds3, &mut out, shard], u8, String, Box<u32>, Vec<u8>, (String, u8), [String; 0], Box<str>, Option<Box<u16>>, [Box<u32>; 3], Box<[u16]>, ZstHeap, Declared);
     if shard.map(|(s, _)| s == 0).unwrap_or(true) { check_unsized(seed, rounds, &mut out); }
+    if shard.map(|(s, n)| s == 1 % n).unwrap_or(true) { check_locked(12, &mut out); }
     out.stats.events = out.stats.evals.values().sum();
     out
 }
